@@ -20,5 +20,9 @@ def run(ctx):
              "modf/ldexp/texture wraps/iround/uround; special-value lattice^2..4 + random moderate operands through min/max/fmin/fmax/clamp/fclamp/"
              "step/mix/smoothstep/fma/mod; bit casts; integer abs/sign/min/max/clamp (8-bit exhaustive); 31 constants x {float,double} against 2^-200 "
              "enclosures; every event judged by TLC in exact arithmetic", exhaustive=False)
+    # stage X11 (notes/X11-notes.md): the scalar-function families around the common functions - splines, easing, optimum_pow, log_base,
+    # associated / extended min-max, reciprocal trigonometry, compatibility, gauss, levels, integer log2 - specified in GlmX11.tla
+    from props import x11
+    x11.run(ctx)
     ctx.assumptions += ["the 2^32 sweep of the unary functions is not built yet: unary functions are judged on the structured lattice only",
                         "composite formulas on doubles are judged for magnitudes 2^-130..2^130", "sign of a zero result is not constrained"]
